@@ -27,17 +27,26 @@ import (
 
 func init() {
 	register("C05",
-		"C05 (structural necessary conditions only; byte-exact payload under every segmentation, reordering, retransmission and file cut is the work of gopacket/reassembly on runtime values and is NOT decided). C05-a (FLOW): in (*index.Writer).AddStream every return whose first result is `false`, reachable from a point after writer state was changed or an undo action was registered, passes a call of the undo closure — a refused stream that leaves packets, hosts or data behind shifts the records of every later stream of that file. C05-b (FLOW): in package streams every append to Stream.Packets is followed on every path to the end of the function by an append to Stream.PacketDirections before the next append to Packets, and vice versa: payload chunks name their packet by index, and the direction of a chunk is PacketDirections[index]. C05-c (sibling agreement): StreamFactory.New and NewUDP set the same endpoint fields, client from Src() and server from Dst(), addresses from the network flow (first parameter) and ports from the transport flow (second). C05-d (sibling agreement): Stream.ReassembledSG and Stream.AddUDPPacket look the packet up with the same key fields and store the index the search stopped at. C05-e (EXH): switches over the packet direction and the stream protocol in AddStream cover both constants.",
-		ruleC05Rollback, ruleC05Parallel, ruleC05Factories, ruleC05Attribution, ruleC05Dispatch)
+		"C05 (structural necessary conditions only; byte-exact payload under every segmentation, reordering, retransmission and file cut is the work of gopacket/reassembly on runtime values and is NOT decided). C05-a (FLOW): in (*index.Writer).AddStream and AddIndex every refusing return (`return false, nil`: the caller keeps using the writer; a return with an error aborts the import or merge and discards every writer), reachable from a point after writer state was changed or an undo action was registered, passes a call of the undo closure — a refused stream that leaves packets, hosts or data behind shifts the records of every later stream of that file. C05-b (FLOW): in package streams every append to Stream.Packets is followed on every path to the end of the function by an append to Stream.PacketDirections before the next append to Packets, and vice versa: payload chunks name their packet by index, and the direction of a chunk is PacketDirections[index]. C05-c (sibling agreement): StreamFactory.New and NewUDP set the same endpoint fields, client from Src() and server from Dst(), addresses from the network flow (first parameter) and ports from the transport flow (second). C05-d (sibling agreement): Stream.ReassembledSG and Stream.AddUDPPacket look the packet up with the same key fields and store the index the search stopped at. C05-e (EXH): switches over the packet direction and the stream protocol in AddStream cover both constants. C05-f (FLOW): every path through udpreassembly.Assembler.AssembleWithContext passes a call of Stream.AddUDPPacket, and every path through Stream.Accept / AddUDPPacket passes the append to Stream.Packets: a datagram or segment that is not recorded is invisible — also when it carries no payload (it still opens the flow, fixes who is the client, and keeps the flow alive). C05-g (typed AST): outside the composite literals of the factories the flag word Stream.Flags is only changed by read-modify-write (|=, &^=, ^=, or an expression that reads the field): it holds the protocol bit and the completion bit side by side.",
+		ruleC05Rollback, ruleC05Parallel, ruleC05Factories, ruleC05Attribution, ruleC05Dispatch, ruleC05EveryDatagram, ruleC05FlagWord)
 }
 
 func ruleC05Rollback(p *Prog, r *Res) {
 	const rule = "C05-a rollback-on-refusal"
 	r.Rule(rule + ": a refusal after a change of writer state passes the undo closure")
-	f := p.Fn("index.Writer.AddStream")
-	if f == nil {
-		return
+	total := 0
+	for _, name := range []string{"index.Writer.AddStream", "index.Writer.AddIndex"} {
+		f := p.Fn(name)
+		if f == nil {
+			continue
+		}
+		total += rollbackIn(p, r, rule, f)
 	}
+	r.Floor(rule, 3, total)
+}
+
+// rollbackIn checks the rollback discipline in one method of Writer and returns the number of refusing returns.
+func rollbackIn(p *Prog, r *Res, rule string, f *Fn) int {
 	info := f.Pkg.TypesInfo
 	recv := f.Decl.Recv
 	var w types.Object
@@ -45,56 +54,144 @@ func ruleC05Rollback(p *Prog, r *Res) {
 		w = info.Defs[recv.List[0].Names[0]]
 	}
 	if w == nil {
-		p.anchorFail("receiver of index.Writer.AddStream")
-		return
+		p.anchorFail("receiver of %s", f.Key())
+		return 0
 	}
-	// the undo closure: a local func() whose body ranges over a local slice of func() and calls each; the registrar
-	// appends to that slice
-	var undoList, undoFn, registrar types.Object
+	isUndoFuncSlice := func(t types.Type) bool {
+		sl, ok := t.Underlying().(*types.Slice)
+		if !ok {
+			return false
+		}
+		sig, ok := sl.Elem().Underlying().(*types.Signature)
+		return ok && sig.Params().Len() == 0 && sig.Results().Len() == 0
+	}
+	// the undo list: a local whose type is a slice of func()
+	var undoList types.Object
 	inspectShallow(f.Body(), func(x ast.Node) bool {
-		as, ok := x.(*ast.AssignStmt)
-		if !ok || len(as.Lhs) != 1 || len(as.Rhs) != 1 {
-			return true
-		}
-		if cl, ok := as.Rhs[0].(*ast.CompositeLit); ok {
-			if sl, ok := info.TypeOf(cl).Underlying().(*types.Slice); ok {
-				if sig, ok := sl.Elem().Underlying().(*types.Signature); ok && sig.Params().Len() == 0 && sig.Results().Len() == 0 {
-					undoList = identObj(info, as.Lhs[0])
+		if as, ok := x.(*ast.AssignStmt); ok && as.Tok == token.DEFINE && undoList == nil {
+			for _, l := range as.Lhs {
+				if o := identObj(info, l); o != nil && isUndoFuncSlice(o.Type()) {
+					undoList = o
 				}
 			}
 		}
-		if lit, ok := as.Rhs[0].(*ast.FuncLit); ok && undoList != nil {
-			ranges, appends := false, false
-			ast.Inspect(lit.Body, func(y ast.Node) bool {
-				if rs, ok := y.(*ast.RangeStmt); ok && identObj(info, rs.X) == undoList {
-					ranges = true
+		if vs, ok := x.(*ast.ValueSpec); ok && undoList == nil {
+			for _, id := range vs.Names {
+				if o := info.Defs[id]; o != nil && isUndoFuncSlice(o.Type()) {
+					undoList = o
 				}
-				if c, ok := y.(*ast.CallExpr); ok && isBuiltin(info, c, "append") && len(c.Args) >= 1 && identObj(info, c.Args[0]) == undoList {
-					appends = true
-				}
-				return true
-			})
-			if ranges {
-				undoFn = identObj(info, as.Lhs[0])
-			}
-			if appends {
-				registrar = identObj(info, as.Lhs[0])
 			}
 		}
 		return true
 	})
-	if undoFn == nil || registrar == nil {
-		p.anchorFail("undo closure / registrar in index.Writer.AddStream")
-		return
+	if undoList == nil {
+		p.anchorFail("undo list (a local []func()) in %s", f.Key())
+		return 0
+	}
+	// what a function body does with the list: runs every element / appends to it
+	classifyBody := func(body *ast.BlockStmt, binfo *types.Info, isList func(ast.Expr) bool) string {
+		kind := ""
+		ast.Inspect(body, func(y ast.Node) bool {
+			switch s := y.(type) {
+			case *ast.RangeStmt:
+				x := ast.Unparen(s.X)
+				if st, ok := x.(*ast.StarExpr); ok {
+					x = ast.Unparen(st.X)
+				}
+				if isList(x) {
+					if v := identObj(binfo, s.Value); v != nil {
+						for _, c := range callsIn(s.Body) {
+							if identObj(binfo, c.Fun) == v {
+								kind = "run"
+							}
+						}
+					}
+				}
+			case *ast.CallExpr:
+				if isBuiltin(binfo, s, "append") && len(s.Args) >= 1 {
+					x := ast.Unparen(s.Args[0])
+					if st, ok := x.(*ast.StarExpr); ok {
+						x = ast.Unparen(st.X)
+					}
+					if isList(x) && kind == "" {
+						kind = "add"
+					}
+				}
+			}
+			return true
+		})
+		return kind
+	}
+	methodKind := func(sel *ast.SelectorExpr) string {
+		if identObj(info, sel.X) != undoList {
+			return ""
+		}
+		fn, ok := info.Uses[sel.Sel].(*types.Func)
+		if !ok {
+			return ""
+		}
+		mf := p.FnOfObj(fn)
+		if mf == nil || mf.Body() == nil || mf.Decl.Recv == nil || len(mf.Decl.Recv.List[0].Names) != 1 {
+			return ""
+		}
+		ro := mf.Pkg.TypesInfo.Defs[mf.Decl.Recv.List[0].Names[0]]
+		return classifyBody(mf.Body(), mf.Pkg.TypesInfo, func(e ast.Expr) bool { return identObj(mf.Pkg.TypesInfo, e) == ro })
+	}
+	// locals bound to the runner / the registrar
+	localKind := map[types.Object]string{}
+	inspectShallow(f.Body(), func(x ast.Node) bool {
+		as, ok := x.(*ast.AssignStmt)
+		if !ok || len(as.Lhs) != len(as.Rhs) {
+			return true
+		}
+		for i, rh := range as.Rhs {
+			o := identObj(info, as.Lhs[i])
+			if o == nil {
+				continue
+			}
+			switch v := ast.Unparen(rh).(type) {
+			case *ast.FuncLit:
+				if k := classifyBody(v.Body, info, func(e ast.Expr) bool { return identObj(info, e) == undoList }); k != "" {
+					localKind[o] = k
+				}
+			case *ast.SelectorExpr:
+				if k := methodKind(v); k != "" {
+					localKind[o] = k
+				}
+			}
+		}
+		return true
+	})
+	callKind := func(c *ast.CallExpr) string {
+		if o := identObj(info, c.Fun); o != nil {
+			return localKind[o]
+		}
+		if sel, ok := ast.Unparen(c.Fun).(*ast.SelectorExpr); ok {
+			return methodKind(sel)
+		}
+		return ""
 	}
 	fl := p.Flow(f)
-	callsObj := func(nd ast.Node, o types.Object) bool {
-		return fl.hasCall(nd, func(c *ast.CallExpr) bool { return identObj(info, c.Fun) == o })
+	hasKind := func(nd ast.Node, k string) bool {
+		return fl.hasCall(nd, func(c *ast.CallExpr) bool { return callKind(c) == k })
 	}
-	isUndo := func(nd ast.Node) bool { return callsObj(nd, undoFn) }
-	// state changes: registrations, stores into / through the receiver, calls of the receiver's mutating helpers
+	anyRun, anyAdd := false, false
+	for _, c := range callsIn(f.Body()) {
+		switch callKind(c) {
+		case "run":
+			anyRun = true
+		case "add":
+			anyAdd = true
+		}
+	}
+	if !anyRun || !anyAdd {
+		p.anchorFail("undo closure / registrar in %s", f.Key())
+		return 0
+	}
+	isUndo := func(nd ast.Node) bool { return hasKind(nd, "run") }
+	// state changes: registrations, stores into / through the receiver
 	changes := func(nd ast.Node) bool {
-		if callsObj(nd, registrar) {
+		if hasKind(nd, "add") {
 			return true
 		}
 		if as, ok := nd.(*ast.AssignStmt); ok {
@@ -114,7 +211,13 @@ func ruleC05Rollback(p *Prog, r *Res) {
 			return false
 		}
 		id, ok := ast.Unparen(ret.Results[0]).(*ast.Ident)
-		return ok && id.Name == "false"
+		if !ok || id.Name != "false" {
+			return false
+		}
+		// a return with an error aborts the whole import / merge: every writer is closed and its file removed, so only the
+		// plain refusal (nil error) — after which the caller keeps using this writer — has to restore it
+		last, ok := ast.Unparen(ret.Results[len(ret.Results)-1]).(*ast.Ident)
+		return ok && last.Name == "nil"
 	}
 	var starts []Pt
 	nChanges := 0
@@ -128,10 +231,10 @@ func ruleC05Rollback(p *Prog, r *Res) {
 		nRef++
 		key := fmt.Sprintf("%s refusal@%s", f.Key(), relLine(p, f, ret))
 		res := fl.Reach(starts, func(nd ast.Node) bool { return nd == ret }, isUndo)
-		r.Check(!res.Found, rule, key, p.Pos(ret), "not reachable from a change of writer state without passing "+undoFn.Name()+"()", "the stream is refused after the writer was changed ("+fl.traceString(res)+") and "+undoFn.Name()+"() is not called: what was written for the refused stream stays in this index file and shifts the packets, hosts or data of every later stream")
+		r.Check(!res.Found, rule, key, p.Pos(ret), "not reachable from a change of writer state without running the undo list", "the input is refused after the writer was changed ("+fl.traceString(res)+") and the undo list is not run: what was written for the refused stream or file stays in this index file and shifts the packets, hosts or data of everything added later")
 	}
-	r.Note("%s: %d state changes / registrations, %d refusing returns in AddStream", rule, nChanges, nRef)
-	r.Floor(rule, 4, nRef)
+	r.Note("%s: %s: %d state changes / registrations, %d refusing returns", rule, f.Key(), nChanges, nRef)
+	return nRef
 }
 
 func ruleC05Parallel(p *Prog, r *Res) {
@@ -346,61 +449,154 @@ func ruleC05Attribution(p *Prog, r *Res) {
 	if fns[0] == nil || fns[1] == nil {
 		return
 	}
-	keys := make([]map[string]bool, 2)
-	for k, f := range fns {
-		info := f.Pkg.TypesInfo
-		keys[k] = map[string]bool{}
-		// the search loop: a for statement whose body appends to Stream.Data
-		var loop *ast.ForStmt
-		inspectShallow(f.Body(), func(x ast.Node) bool {
-			if fs, ok := x.(*ast.ForStmt); ok {
-				ast.Inspect(fs.Body, func(y ast.Node) bool {
-					if cl, ok := y.(*ast.CompositeLit); ok {
-						if nt := namedOf(info.TypeOf(cl)); nt != nil && nt.Obj().Name() == "StreamData" {
-							loop = fs
-						}
-					}
-					return true
-				})
-			}
-			return true
-		})
-		if loop == nil {
-			p.anchorFail("search loop in %s", f.Key())
-			continue
-		}
-		var iv types.Object
-		if as, ok := loop.Init.(*ast.AssignStmt); ok && len(as.Lhs) == 1 {
-			iv = identObj(info, as.Lhs[0])
-		}
+	// keys compared by a search loop: `x.F != y.F` / `x.F == y.F` between two different values
+	loopKeys := func(loop *ast.ForStmt) map[string]bool {
+		m := map[string]bool{}
 		ast.Inspect(loop.Body, func(y ast.Node) bool {
 			if be, ok := y.(*ast.BinaryExpr); ok && (be.Op == token.NEQ || be.Op == token.EQL) {
 				sx, okx := ast.Unparen(be.X).(*ast.SelectorExpr)
 				sy, oky := ast.Unparen(be.Y).(*ast.SelectorExpr)
 				if okx && oky && sx.Sel.Name == sy.Sel.Name {
-					keys[k][sx.Sel.Name] = true
+					m[sx.Sel.Name] = true
 				}
 			}
-			if cl, ok := y.(*ast.CompositeLit); ok {
-				if nt := namedOf(info.TypeOf(cl)); nt != nil && nt.Obj().Name() == "StreamData" {
-					for _, e := range cl.Elts {
-						kv, ok := e.(*ast.KeyValueExpr)
-						if !ok || kv.Key.(*ast.Ident).Name != "PacketIndex" {
-							continue
-						}
-						uses := false
-						ast.Inspect(kv.Value, func(z ast.Node) bool {
-							if id, ok := z.(*ast.Ident); ok && iv != nil && info.Uses[id] == iv {
-								uses = true
-							}
-							return true
-						})
-						r.Check(uses, rule, f.Key()+" PacketIndex is the index the search stopped at", p.Pos(kv), "PacketIndex derives from the loop variable", "the chunk is attributed to "+types.ExprString(kv.Value)+", not to the packet the search found: its direction and its place in the conversation are those of another packet")
+			return true
+		})
+		return m
+	}
+	loopVar := func(info *types.Info, loop *ast.ForStmt) types.Object {
+		if as, ok := loop.Init.(*ast.AssignStmt); ok && len(as.Lhs) == 1 {
+			return identObj(info, as.Lhs[0])
+		}
+		return nil
+	}
+	mentions := func(info *types.Info, e ast.Node, o types.Object) bool {
+		hit := false
+		ast.Inspect(e, func(z ast.Node) bool {
+			if id, ok := z.(*ast.Ident); ok && o != nil && info.Uses[id] == o {
+				hit = true
+			}
+			return !hit
+		})
+		return hit
+	}
+	// searchOf: the search loop that produces the value of expr in f — an enclosing loop of the literal, or the loop of a
+	// package helper whose result expr is (a return inside the loop that mentions the loop variable)
+	var searchOf func(f *Fn, lit ast.Node, expr ast.Expr, depth int) (map[string]bool, string)
+	searchOf = func(f *Fn, lit ast.Node, expr ast.Expr, depth int) (map[string]bool, string) {
+		info := f.Pkg.TypesInfo
+		var found map[string]bool
+		where := ""
+		// enclosing loops of the literal
+		inspectParents(f.Body(), func(x ast.Node, parents []ast.Node) bool {
+			if x != lit {
+				return true
+			}
+			for _, par := range parents {
+				if fs, ok := par.(*ast.ForStmt); ok {
+					if iv := loopVar(info, fs); iv != nil && mentions(info, expr, iv) {
+						found, where = loopKeys(fs), f.Key()
 					}
 				}
 			}
 			return true
 		})
+		if found != nil || depth > 3 {
+			return found, where
+		}
+		// through a single-definition local
+		if id, ok := ast.Unparen(expr).(*ast.Ident); ok {
+			o := info.Uses[id]
+			var def ast.Expr
+			var defStmt ast.Node
+			nDef := 0
+			inspectShallow(f.Body(), func(x ast.Node) bool {
+				if as, ok := x.(*ast.AssignStmt); ok && len(as.Lhs) == len(as.Rhs) {
+					for i, l := range as.Lhs {
+						if identObj(info, l) == o {
+							nDef++
+							def, defStmt = as.Rhs[i], as
+						}
+					}
+				}
+				return true
+			})
+			if nDef == 1 {
+				return searchOf(f, defStmt, def, depth+1)
+			}
+			return nil, ""
+		}
+		// through a helper call (possibly wrapped in a conversion)
+		var call *ast.CallExpr
+		ast.Inspect(expr, func(z ast.Node) bool {
+			if c, ok := z.(*ast.CallExpr); ok && call == nil {
+				if fn := p.Callee(f.Pkg, c); fn != nil && p.FnOfObj(fn) != nil {
+					call = c
+				}
+			}
+			return call == nil
+		})
+		if call == nil {
+			return nil, ""
+		}
+		h := p.FnOfObj(p.Callee(f.Pkg, call))
+		if h == nil || h.Body() == nil {
+			return nil, ""
+		}
+		hinfo := h.Pkg.TypesInfo
+		inspectShallow(h.Body(), func(x ast.Node) bool {
+			fs, ok := x.(*ast.ForStmt)
+			if !ok {
+				return true
+			}
+			iv := loopVar(hinfo, fs)
+			ast.Inspect(fs.Body, func(y ast.Node) bool {
+				if ret, ok := y.(*ast.ReturnStmt); ok {
+					for _, res := range ret.Results {
+						if mentions(hinfo, res, iv) {
+							found, where = loopKeys(fs), h.Key()
+						}
+					}
+				}
+				return true
+			})
+			return true
+		})
+		return found, where
+	}
+	keys := make([]map[string]bool, 2)
+	wheres := make([]string, 2)
+	for k, f := range fns {
+		info := f.Pkg.TypesInfo
+		nLit := 0
+		inspectShallow(f.Body(), func(y ast.Node) bool {
+			cl, ok := y.(*ast.CompositeLit)
+			if !ok {
+				return true
+			}
+			if nt := namedOf(info.TypeOf(cl)); nt == nil || nt.Obj().Name() != "StreamData" {
+				return true
+			}
+			nLit++
+			for _, e := range cl.Elts {
+				kv, ok := e.(*ast.KeyValueExpr)
+				if !ok || kv.Key.(*ast.Ident).Name != "PacketIndex" {
+					continue
+				}
+				ks, where := searchOf(f, cl, kv.Value, 0)
+				r.Check(ks != nil, rule, f.Key()+" PacketIndex is the index the search stopped at", p.Pos(kv), "PacketIndex is the loop variable of the packet search in "+where, "the chunk is attributed to "+types.ExprString(kv.Value)+", which is not the position the packet search stopped at: its direction and its place in the conversation are those of another packet")
+				if ks != nil {
+					keys[k], wheres[k] = ks, where
+				}
+			}
+			return true
+		})
+		if nLit == 0 {
+			p.anchorFail("StreamData literal in %s", f.Key())
+		}
+	}
+	if keys[0] == nil || keys[1] == nil {
+		return
 	}
 	same := len(keys[0]) == len(keys[1]) && len(keys[0]) >= 2
 	for k := range keys[0] {
@@ -408,7 +604,7 @@ func ruleC05Attribution(p *Prog, r *Res) {
 			same = false
 		}
 	}
-	r.Check(same, rule, "streams.Stream.ReassembledSG / AddUDPPacket compare the same packet key", p.Pos(fns[0].Node()), "both compare {"+strings.Join(keysOf(keys[0]), ", ")+"}", "the TCP path identifies the packet by {"+strings.Join(keysOf(keys[0]), ", ")+"}, the UDP path by {"+strings.Join(keysOf(keys[1]), ", ")+"}: with the weaker key two packets of one stream are confused and a chunk gets the wrong direction")
+	r.Check(same, rule, "streams.Stream.ReassembledSG / AddUDPPacket compare the same packet key", p.Pos(fns[0].Node()), "both compare {"+strings.Join(keysOf(keys[0]), ", ")+"} ("+wheres[0]+" / "+wheres[1]+")", "the TCP path identifies the packet by {"+strings.Join(keysOf(keys[0]), ", ")+"}, the UDP path by {"+strings.Join(keysOf(keys[1]), ", ")+"}: with the weaker key two packets of one stream are confused and a chunk gets the wrong direction")
 }
 
 func ruleC05Dispatch(p *Prog, r *Res) {
@@ -462,4 +658,92 @@ func ruleC05Dispatch(p *Prog, r *Res) {
 		return true
 	})
 	r.Floor(rule, 3, n)
+}
+
+
+func ruleC05EveryDatagram(p *Prog, r *Res) {
+	const rule = "C05-f every-packet-recorded"
+	r.Rule(rule + ": no path through the UDP assembler or the stream's packet hooks skips the recording of the packet")
+	addUDP := p.Method("streams", "Stream", "AddUDPPacket")
+	pk := p.Field("streams", "Stream", "Packets")
+	if addUDP == nil || pk == nil {
+		return
+	}
+	n := 0
+	if f := p.Fn("udpreassembly.Assembler.AssembleWithContext"); f != nil {
+		n++
+		fl := p.Flow(f)
+		isAdd := func(nd ast.Node) bool {
+			return fl.hasCall(nd, func(c *ast.CallExpr) bool { return p.Callee(f.Pkg, c) == addUDP })
+		}
+		res := fl.MustPass(isAdd)
+		miss := res.Found || fallsOffEndAvoiding(fl, fl.Entry(), isAdd)
+		r.Check(!miss, rule, f.Key()+" reaches Stream.AddUDPPacket on every path", p.Pos(f.Node()), "every path passes AddUDPPacket", "a datagram can leave the assembler without being handed to its stream ("+fl.traceString(res)+"): it is missing from the stream's packets; if it was the first of its flow the flow starts with the answer and client and server are swapped, if it was a keep-alive the flow times out and is split")
+	}
+	for _, name := range []string{"streams.Stream.Accept", "streams.Stream.AddUDPPacket"} {
+		f := p.Fn(name)
+		if f == nil {
+			continue
+		}
+		n++
+		info := f.Pkg.TypesInfo
+		fl := p.Flow(f)
+		isRec := func(nd ast.Node) bool {
+			as, ok := nd.(*ast.AssignStmt)
+			if !ok {
+				return false
+			}
+			for _, l := range as.Lhs {
+				if isFieldOf(info, l, pk) {
+					return true
+				}
+			}
+			return false
+		}
+		res := fl.MustPass(isRec)
+		miss := res.Found || fallsOffEndAvoiding(fl, fl.Entry(), isRec)
+		r.Check(!miss, rule, f.Key()+" records the packet on every path", p.Pos(f.Node()), "every path passes the append to Stream.Packets", "a packet can pass this hook without being recorded in Stream.Packets ("+fl.traceString(res)+"): it is missing from the stream (pcap export, packet count, first/last packet time)")
+	}
+	r.Floor(rule, 3, n)
+}
+
+func ruleC05FlagWord(p *Prog, r *Res) {
+	const rule = "C05-g flag-word-read-modify-write"
+	r.Rule(rule + ": Stream.Flags is changed only by read-modify-write outside the factories")
+	fld := p.Field("streams", "Stream", "Flags")
+	if fld == nil {
+		return
+	}
+	n := 0
+	for _, f := range p.FnList {
+		if f.Body() == nil {
+			continue
+		}
+		info := f.Pkg.TypesInfo
+		inspectShallow(f.Body(), func(x ast.Node) bool {
+			as, ok := x.(*ast.AssignStmt)
+			if !ok {
+				return true
+			}
+			for i, l := range as.Lhs {
+				if !isFieldOf(info, l, fld) {
+					continue
+				}
+				n++
+				key := fmt.Sprintf("%s %s %s …", f.Key(), exprString(p.Fset, l), as.Tok)
+				okRMW := as.Tok == token.OR_ASSIGN || as.Tok == token.AND_NOT_ASSIGN || as.Tok == token.XOR_ASSIGN || as.Tok == token.AND_ASSIGN
+				if !okRMW && as.Tok == token.ASSIGN && i < len(as.Rhs) {
+					ast.Inspect(as.Rhs[i], func(y ast.Node) bool {
+						if se, ok := y.(*ast.SelectorExpr); ok && info.Uses[se.Sel] == types.Object(fld) {
+							okRMW = true
+						}
+						return true
+					})
+				}
+				r.Check(okRMW, rule, key, p.Pos(as), "read-modify-write", "the flag word is overwritten as a whole: the protocol bit set by the factory is lost (a UDP flow is written as TCP) or the completion bit is")
+			}
+			return true
+		})
+	}
+	r.Floor(rule, 1, n)
 }
